@@ -186,18 +186,83 @@ def net_part(ck, tier, rng):
                   dd, no_input=True)
 
 
+HREPLAY_HEADER = sprops.HEADER + "\nFrom TV Require Import Model.HSim Oracle.HReplay."
+
+
+def hreplay_run(cfg, devs, stim, pol, bseed):
+    r = slevel.run_internal(cfg, devs, stim=stim, t_end=T_END, bus=make_bus(pol, bseed, cfg))
+    return r, slevel.render_replay_case(cfg, devs, (1, 1), 0, stim, T_END, r)
+
+
+def hreplay_part(ck, tier, rng):
+    """the deliveries of the delaying bus, replayed message by message in the interleaving model (Oracle/HReplay.v): every
+    delivery must be a possible move of Model/HSim.v and carry the message the model has in flight (26-29, 51/52)"""
+    n, k = {"quick": (36, 2), "thorough": (400, 4)}[tier]
+    cases, terms = [], []
+    skipped = 0
+    for _ in range(n):
+        cfg = slevel.gen_config(rng, depth=rng.choice([0, 1, 2, 2, 3]), p_sys=0.6)
+        devs = slevel.gen_devs(rng, cfg, (0, 0, 1, 2, 3, 4, 5))
+        dl = slevel.devices_of(cfg)
+        # interrupts one at a time, well apart, never at the instant of a callback: between the ticks, as C08 has it
+        st = sorted((rng.randrange(1, 2500) * 1_000_000 + 333 + 37 * j, rng.choice(dl)) for j in range(rng.randint(0, 3)))
+        stim = [x for j, x in enumerate(st) if j == 0 or x[0] - st[j - 1][0] > 2_000_000]
+        for _ in range(k):
+            pol, bseed = rng.choice(POLICIES), rng.randrange(10 ** 6)
+            r, term = hreplay_run(cfg, devs, stim, pol, bseed)
+            if term is None or r["error"] or r["errors"]:
+                skipped += 1
+                continue
+            cases.append(dict(cfg=cfg, devs=devs, stim=stim, schedule=[pol, bseed], run=r))
+            terms.append(term)
+    bad = run_shards(PID + "_hreplay", HREPLAY_HEADER, "replay_case", "check_hreplay", terms, shard_size=6)
+    total = inner = 0
+    for c in cases:
+        paths = slevel.comp_paths(c["cfg"])
+        items = [it for (_, its) in c["run"]["deliveries"] for it in its if it[0] != "other"]
+        ins = sum(1 for it in items if paths[it[1]])
+        total += len(items)
+        inner += ins
+        ck.count("hreplay:" + json.dumps([{str(a): b for a, b in c["cfg"].items()}, c["stim"], c["schedule"]], sort_keys=True), ins >= 10)
+    ck.coverage.update(replayed_runs=len(cases), replayed_deliveries=total, replayed_deliveries_inside_system_simulations=inner,
+                       replayed_runs_not_rendered=skipped, replay_disagreements=len(bad))
+    if bad:
+        i = min(bad)
+        c = cases[i]
+        ck.report("real-deliveries-are-not-a-run-of-the-interleaving-model",
+                  f"whole simulation on the delaying bus ({c['schedule'][0]}): replaying its deliveries in Model/HSim.v gives codes {bad[i]}",
+                  dict(kind="hreplay", cfg={str(a): b for a, b in c["cfg"].items()}, devs={str(a): list(b) for a, b in c["devs"].items()},
+                       stim=[list(x) for x in c["stim"]], schedule=c["schedule"], codes=bad[i],
+                       broken="correspondence Model/HSim.v vs the real schedulers on the delaying bus; C08_interleaved_nesting_is_sim"),
+                  no_input=True)
+
+
+def both_parts(ck, tier, rng):
+    net_part(ck, tier, rng)
+    hreplay_part(ck, tier, rng)
+
+
 def main(tier, seed):
     return tprops.main_T(PID, tier, seed, {21}, "Props.C08",
                          ["Model/Ticker.v", "Oracle/TickerOracle.v", "Model/Sim.v", "Oracle/SimCheck.v", "Oracle/SimOracle.v",
                           "Proofs/TickerP.v", "Model/NSim.v", "Proofs/LatestP.v", "Proofs/EqvP.v", "Proofs/InlineP.v", "Proofs/InlineLoopP.v",
                           "Proofs/InlineScopeP.v", "Proofs/InlineLatestP.v", "Proofs/WakeWfP.v", "Proofs/ExtentP.v", "Proofs/Confluence2P.v",
                           "Proofs/ScheduleP.v", "Proofs/SimTraceP.v", "Model/SimTime.v", "Model/Inline.v", "Proofs/ParDevP.v", "Proofs/FuelP.v",
-                          "Proofs/Confluence3P.v", "Model/NNSim.v", "Proofs/NScheduleP.v", "Proofs/NDetP.v", "Proofs/NDetScopeP.v", "Proofs/NDetXP.v", "Proofs/SimNTP.v", "Proofs/MsgLevelP.v", "Model/HSim.v", "Proofs/MsgTreeP.v", "Proofs/HSimP.v", "Proofs/ExtentP.v", "Model/Interrupts.v", "Oracle/ScopeCheck.v",
+                          "Proofs/Confluence3P.v", "Model/NNSim.v", "Proofs/NScheduleP.v", "Proofs/NDetP.v", "Proofs/NDetScopeP.v", "Proofs/NDetXP.v", "Proofs/SimNTP.v", "Proofs/MsgLevelP.v", "Model/HSim.v", "Proofs/MsgTreeP.v", "Proofs/HSimP.v", "Oracle/HReplay.v", "Proofs/ExtentP.v", "Model/Interrupts.v", "Oracle/ScopeCheck.v",
                           "Proofs/FrameP.v", "Proofs/NonInterfP.v", "Proofs/NonInterfLoopP.v", "Props/C08.v"],
-                         "schedule independence", extra=net_part)
+                         "schedule independence", extra=both_parts)
 
 
 def replay(rp):
+    if rp.get("kind") == "hreplay":
+        cfg = {int(a): dict(order=[(c, kk) for c, kk in v["order"]], conns=[tuple(x) for x in v["conns"]]) for a, v in rp["cfg"].items()}
+        devs = {int(a): tuple(v) for a, v in rp["devs"].items()}
+        r, term = hreplay_run(cfg, devs, [tuple(x) for x in rp["stim"]], rp["schedule"][0], rp["schedule"][1])
+        bad = run_shards("replay", HREPLAY_HEADER, "replay_case", "check_hreplay", [term]) if term else {0: ["not rendered"]}
+        print("configuration:", cfg, "stimuli:", rp["stim"], "schedule:", rp["schedule"])
+        print("deliveries of the first ticks:", [(t, its[:8]) for (t, its) in r["deliveries"][:3]])
+        print("codes:", bad.get(0, []))
+        return 1 if bad else 0
     if rp.get("kind") != "net":
         return tprops.replay_T(rp)
     case = case_of(rp)
